@@ -45,6 +45,7 @@ FRAGS = {
     "tup1_ai_str": {"type": "array", "items": [INT], "additionalItems": STR},
     "tup1_ai_false": {"type": "array", "items": [INT], "additionalItems": False},
     "tup2": {"type": "array", "items": [INT, INT], "minItems": 2, "maxItems": 2},
+    "tup1_open": {"type": "array", "items": [INT]},   # no additionalItems: positions past the list are unconstrained
     "tup3_any": {"type": "array", "items": [INT, {}, {}], "minItems": 3, "maxItems": 3},
     # fragments for the arms of merge.rs / validate.rs a coverage run of the quick tier found unexercised
     "ty_str_null": {"type": ["string", "null"]}, "ty_int_str": {"type": ["integer", "string"]}, "ty_obj_null": {"type": ["object", "null"]},
